@@ -461,6 +461,9 @@ def _make_func(rec, nargs, ret):
     return func
 
 
+PACKAGE_TRACKERS = ("walltime", "print", "consistency", "maxruntime")
+
+
 def build_trackers(tspecs, dt, t0):
     """-> (list of tracker objects, list of Recorders)"""
     objs, recs = [], []
@@ -484,6 +487,28 @@ def build_trackers(tspecs, dt, t0):
             tr = rec.storage.tracker(interrupts=intr)
         elif kind == "custom":
             tr = CustomTracker(rec, intr)
+        elif kind in PACKAGE_TRACKERS:
+            # trackers of the package that take no callback (after missed seed C08-7: a tracker class that
+            # overrides `initialize` dropped the start time): their `handle` is wrapped to record the calls
+            import io
+
+            from pde.trackers.trackers import ConsistencyTracker, MaxRuntimeTracker, PrintTracker, WalltimeTracker
+
+            if kind == "walltime":
+                tr = WalltimeTracker(interrupts=intr)
+            elif kind == "print":
+                tr = PrintTracker(interrupts=intr, stream=io.StringIO())
+            elif kind == "consistency":
+                tr = ConsistencyTracker(interrupts=intr)
+            else:
+                tr = MaxRuntimeTracker(max_runtime=1e6, interrupts=intr)
+            orig_handle = tr.handle
+
+            def handle(field, t, _orig=orig_handle, _rec=rec):
+                _rec.see(field, t)
+                return _orig(field, t)
+
+            tr.handle = handle
         else:
             raise ValueError(kind)
         objs.append(_instrument(tr, rec))
